@@ -109,6 +109,7 @@ class Kernel(object):
                                            and sig not in _STOPPING):
             if self.instant_death:
                 self._exit(p, sig)
+                self.rec("sigdeath", p=pid, a=sig)
             elif pid not in self.dying:
                 self.dying[pid] = sig
 
